@@ -115,7 +115,26 @@ NESTED = [
 
 
 def gen_form(rng, light=False):
-    k = rng.weighted([("hostile", 10), ("benign", 3), ("nested", 1), ("literal-mutation", 1)])
+    k = rng.weighted([("hostile", 10), ("benign", 3), ("nested", 1), ("literal-mutation", 1), ("long-token", 1)])
+    if k == "long-token":
+        # source text whose tokens cross the reader's internal buffer sizes (128 * 2^k): plain characters followed by / mixed with
+        # runs of hex escapes of characters of every UTF-8 width, in string and |symbol| literals, plus long numbers and identifiers
+        edge = rng.choice([128, 256, 512, 1024, 4096]) + rng.range(-9, 3)
+        plain = "".join(rng.choice("abcxyz 019") for _ in range(max(0, edge - rng.choice([0, 0, 1, 2, 3, 5, 8, 40]))))
+        run = "".join("\\x%x;" % rng.choice([0x41, 0xe9, 0x3bb, 0x20ac, 0x1F600, 0x10FFFF, 0x80, 0x7ff, 0x800, 0xffff, 0x10000]) for _ in range(rng.choice([1, 2, 3, 8, 40, 200])))
+        body = rng.choice([plain + run, run + plain, plain + run + "z" + run, run])
+        kind = rng.below(5)
+        if kind == 0:
+            src = '(string-length "%s")' % body
+        elif kind == 1:
+            src = "(string-length (symbol->string '|%s|))" % body.replace(" ", "_")
+        elif kind == 2:
+            src = '(string-length (read (open-input-string "\\"%s\\"")))' % body.replace("\\", "\\\\")
+        elif kind == 3:
+            src = "(exact? %s%s)" % (rng.choice(["", "-", "#x", "1/", "#e1."]), "1" + "".join(rng.choice("0123456789") for _ in range(edge)))
+        else:
+            src = "(symbol? 'a%s)" % "".join(rng.choice("abc-!?*<>=/+0") for _ in range(edge))
+        return {"src": src, "kind": "long-token"}
     if k == "hostile":
         proc = rng.choice(PROCS)
         nargs = rng.weighted([(0, 1), (1, 5), (2, 6), (3, 4), (4, 1)])
